@@ -55,7 +55,7 @@ NUMERIC_FUNCS = {
 
 
 def kinds(tier):
-    ks = ["argtype", "rule", "pyexc", "righthand", "nested", "two-components", "direct", "stop-same-line"]
+    ks = ["argtype", "rule", "pyexc", "righthand", "nested", "two-components", "direct", "stop-same-line", "empty-sibling"]
     return ks
 
 
@@ -66,6 +66,9 @@ def build(kind, faults, func=None):
         bad = ln in faults
         if kind in ("argtype", "nested", "two-components", "func", "direct"):
             rows.append(["zz" if bad else str(ln), "2", "t"])
+        elif kind == "empty-sibling":
+            # the offending line also has an empty cell that the same component tree has already read
+            rows.append(["zz" if bad else str(ln), "" if bad else "2", "" if bad else "t"])
         elif kind == "stop-same-line":
             # the line that faults is also the line on which a later component stops the run; more components follow
             rows.append(["zz" if bad else str(ln), "9" if bad else "2", "t"])
@@ -90,6 +93,8 @@ def build(kind, faults, func=None):
         m = "and(yes(), gt(add(#0, 1), 0))"
     elif kind == "two-components":
         m = "@x = add(#0, 1) @y = subtract(#0, 1)"
+    elif kind == "empty-sibling":
+        m = "@y = #2 @x = add(#1, #0)"
     elif kind == "stop-same-line":
         m = "@x = add(#0, 1) stop(#1 == 9) @y = count_lines() @z = line_number()"
     elif kind == "direct":
